@@ -39,6 +39,18 @@ def allHashes (C : Coll) : List Nat := insertAll [] C.flatten
 /-- the reference index as a table `h ↦ refIds C h` over the hashes that occur -/
 def refTable (C : Coll) : List (Nat × List Nat) := (allHashes C).map (fun h => (h, refIds C h))
 
+/-- `l` is an interleaving of the task programs `ps`: every step takes the next write of some task
+(a schedule of the parallel build loop that respects each dataset's program order) -/
+inductive Interleaving {α : Type} : List (List α) → List α → Prop where
+  | done {ps : List (List α)} : (∀ p ∈ ps, p = []) → Interleaving ps []
+  | step {pre : List (List α)} {p : List α} {post : List (List α)} {x : α} {l : List α} :
+      Interleaving (pre ++ p :: post) l → Interleaving (pre ++ (x :: p) :: post) (x :: l)
+
+/-- whatever RocksDB does with the operands of a key, it merges each of them exactly once: the leaves
+of the merge forest are the operands, in some order -/
+def GroupingOK (g : Option Nat → List Bytes → List (List MTree)) : Prop :=
+  ∀ key ops, (forestLeaves (g key ops)).Perm ops
+
 /-- |Q ∩ D| for duplicate-free `Q` -/
 def overlap (Q D : List Nat) : Nat := (Q.filter (fun h => D.contains h)).length
 
